@@ -240,4 +240,4 @@ def cases(draw):
 
 def run(ctx):
     q = ctx.tier == "quick"
-    run_hypothesis(ctx, cases(), oracle, 28 if q else 400, "C17")
+    run_hypothesis(ctx, cases(), oracle, 28 if q else 200, "C17")
